@@ -6,9 +6,9 @@ package main
 // succeed / fail on numbers / fail always / do not compile — all subsets and orders of the failure
 // classes io, decode, expr (and compile) occur.
 func (rn *runner) matrix(maxLen int, withBin bool) {
-	kinds := []string{"a.json", "n.json", "u1.bin", "miss1", "dir1"}
+	kinds := []string{"a.json", "n.json", "u1.bin", "miss1", "dir1", "fifo_a.json"}
 	if withBin {
-		kinds = append(kinds, "img.png")
+		kinds = append(kinds, "img.png", "fifo_u.bin")
 	}
 	progs := []string{".", progFnum2, progFall, "("}
 	var rec func(files []string)
@@ -89,6 +89,42 @@ func (rn *runner) fixedCases() {
 	m([]string{"-c", "(.missing? // null)|error", "a.json"}, 2)
 	m([]string{"-c", "., (false|error)", "n.json", "a.json"}, 2, 3)
 	m([]string{"-c", failOnNumber(`"s"`), "a.json", "n.json", "b.json", "m.json"}, 2, 3, 4, 5) // string error, then …
+	// degenerate but valid programs (identity), as argument and as -f file
+	for _, pr := range []string{"def f: 1;", "", "# c", "def f: 1; # c", "def f: 1; def g: f;", " "} {
+		m([]string{"-c", pr, "a.json", "n.json"}, 2, 3)
+	}
+	for _, pf := range []string{"p_defs.jq", "p_empty.jq", "p_comment.jq", "p_defs_comment.jq", "p_ok.fifo"} {
+		m([]string{"-c", "-f", pf, "a.json", "n.json"}, 3, 4)
+	}
+	// non-regular inputs in every position
+	for _, nr := range []string{"fifo_a.json", "fifo_n.json", "fifo.png", "fifo_u.bin", "cdev_a.json"} {
+		m([]string{"-c", ".", nr}, 2)
+		m([]string{"-c", ".", nr, "a.json", "n.json"}, 2, 3, 4)
+		m([]string{"-c", ".", "a.json", nr, "n.json"}, 2, 3, 4)
+		m([]string{"-c", ".", "a.json", "miss1", nr}, 2, 3, 4)
+	}
+	m([]string{"-c", progFnum, "fifo_n.json", "fifo_a.json"}, 2, 3)
+	m([]string{"-sc", ".", "a.json", "fifo_a.json"}, 2, 3)
+	m([]string{"-Rc", ".", "fifo_a.json"}, 2)
+	// `--` placement: positionals before it are kept
+	m([]string{".a?", "--", "a.json"}, 2)
+	m([]string{"-c", ".a?", "a.json", "--", "n.json", "-n"}, 2, 4, 5)
+	m([]string{"--", ".a?", "a.json"}, 2)
+	m([]string{".a?", "a.json", "--"}, 1)
+	// --repl x -f x number of input files (no file = null input)
+	for _, fl := range [][]string{{"-i"}, {"-i", "-f", "p_fnum.jq"}, {"-f", "p_fnum.jq", "--repl"}, {"-i", progFnum}, {"-i", "-n", progFall}, {"-is", progFnum}, {"-i", "("}} {
+		for _, files := range [][]string{{}, {"n.json"}, {"miss1"}, {"n.json", "a.json"}, {"a.json", "miss1", "n.json", "u1.bin"}} {
+			if len(fl) == 1 && len(files) > 0 {
+				continue // `-i FILE`: the file would be the program
+			}
+			argv := append(append([]string{}, fl...), files...)
+			var idx []int
+			for k := range files {
+				idx = append(idx, len(fl)+k)
+			}
+			m(argv, idx...)
+		}
+	}
 	m([]string{})
 	m([]string{"-v", "(", "miss1"}, 2)
 	m([]string{"-h", "nosuchtopic"})
